@@ -99,27 +99,13 @@ def run_case(case):
                 if rc != 0:
                     viol.append({"key": "l-fails/rc=%s" % rc, "what": "py7zr l -> exit %s: %s" % (rc, se[-200:])})
                 else:
-                    listed = []
-                    in_table = False
-                    for line in so.splitlines():
-                        if line.startswith("-------------------"):
-                            in_table = not in_table
-                            continue
-                        if in_table and len(line) > 53:
-                            listed.append(line[53:] if False else line.split(None, 5)[-1] if False else None)
-                    # the name column starts after 5 fixed-width columns; parse by prefix width
-                    listed = []
-                    in_table = False
-                    for line in so.split("\n"):
-                        if line.startswith("-------------------"):
-                            in_table = not in_table
-                            continue
-                        if in_table and line:
-                            listed.append(line)
-                    missing = [n for n in libnames if not any(row.endswith(" " + n) or row.endswith(n) for row in listed)]
-                    if missing or len(listed) != len([n for n in libnames if "\n" not in n]) + sum(n.count("\n") + 1 for n in libnames if "\n" in n):
-                        if missing:
-                            viol.append({"key": "l-misses-member", "what": "py7zr l does not show %r (library lists %d members, table has %d rows)" % (missing[:3], len(libnames), len(listed))})
+                    # the table lies between the two dashed lines; names may contain any character (also \n, \r),
+                    # so look each name up in the table text instead of splitting it into rows
+                    marks = [i for i in range(len(so)) if so.startswith("------------------- -----", i)]
+                    table = so[marks[0]:marks[-1]] if len(marks) >= 2 else ""
+                    missing = [n for n in libnames if (" " + n + "\n") not in table]
+                    if missing:
+                        viol.append({"key": "l-misses-member", "what": "py7zr l does not show %r (library lists %d members)" % (missing[:3], len(libnames))})
                 cells.add("tree|l|%s|rc%s" % ("verbose" if case["verbose"] else "-", rc))
                 rc, so, se = _cli(["t", "out.7z"], work, obs)
                 if rc != 0:
